@@ -547,6 +547,8 @@ func checkC19(c *Ctx) {
 	c.Rule("C19.R6", "set-flag pairing: a parser clause that stores a value into field F also sets F's presence flag when the type has one, and a formatter emission of F guarded by a bare presence flag is guarded by F's own flag")
 	c.Rule("C19.R7", "rewrites are re-validated: both config rewrite paths parse and compile the formatted bytes before the first write (C18.R7 on the same tree)")
 
+	c.Rule("C19.R8", "the formatter withholds nothing the parser produced: a condition that decides whether the formatter writes (or skips an element) tests presence only — nil, presence/shape flags, lengths and indices, emptiness of a scalar field that has no presence flag — never the content of a directive or block")
+
 	m := newCfgModel(c.P)
 	if m == nil {
 		c.Undecided("C19.R1", "config", "", "package config / type Config not found")
@@ -654,6 +656,7 @@ func checkC19(c *Ctx) {
 	checkFormatOrder(c, m, fmtFns, "C19.R5")
 	checkSetFlagPairing(c, m, fmtFns, parseFns, "C19.R6")
 	checkRewriteValidateRestore(c, "C19.R7")
+	checkFormatterWithholdsNothing(c, m, fmtFns, compFns, "C19.R8")
 }
 
 // ---------------------------------------------------------------------------
